@@ -403,7 +403,12 @@ Inductive plan :=
 | PSteps (d : dtype) (es : list elem)     (* IndexGO.extend: one resolve_dtype(dtype_from_element(e), acc) per appended label *)
 | PConcat (d : dtype) (ds : list dtype)   (* util.concat_resolved *)
 | PIterDt (d : dtype) (ds : list dtype)   (* util.resolve_dtype_iter: row consolidation, Frame.values *)
+| PGrown (d : dtype) (ds : list dtype)    (* TypeBlocks.append: the cached row dtype of a table grown block by block *)
 | PIter (es : list elem).                 (* util.iterable_to_array_1d(values, dtype=None) *)
+
+(* TypeBlocks.append (type_blocks.py:3222-3227): `elif block.dtype != self._row_dtype: self._row_dtype = object` *)
+Definition grown_step (acc d : dtype) : dtype := if dtype_eqb d acc then acc else DObj.
+Definition grown_loop (d : dtype) (ds : list dtype) : dtype := fold_left grown_step ds d.
 
 Definition plan_dtype (p : plan) : res dtype :=
   match p with
@@ -415,6 +420,7 @@ Definition plan_dtype (p : plan) : res dtype :=
   | PSteps d es => Ok (fold_left (fun acc e => resolve (elem_dtype e) acc) es d)
   | PConcat d ds => Ok (concat_loop d ds)
   | PIterDt d ds => Ok (resolve_iter_loop d ds)
+  | PGrown d ds => Ok (grown_loop d ds)
   | PIter es => if f_obj (iter_flags es) then Ok DObj else np_discover es
   end.
 
